@@ -1177,6 +1177,8 @@ class FuncVC:
         ws = [w for _, w in live]
         if not any(isinstance(w, bool) for w in ws):
             ex.oblige(f"{self.qual}:{kind}:only-when", z3.Or(*ws) if len(ws) > 1 else ws[0])
+        else:
+            ex.oblige(f"{self.qual}:{kind}:exit-permitted", True)
         for e, w in live:
             guard = (lambda f: f) if isinstance(w, bool) else (lambda f, w=w: z3.Implies(w, f))
             r = res
